@@ -319,6 +319,7 @@ Definition strip_variant (name : str) (v : rvariant) : rvariant :=
   {| rv_attrs := only_named name (rv_attrs v); rv_ident := rv_ident v; rv_fields := rv_fields v |}.
 Definition strip_item (name : str) (it : ritem) : ritem :=
   {| ri_attrs := only_named name (ri_attrs it); ri_ident := ri_ident it; ri_params := ri_params it;
+     ri_where := ri_where it;
      ri_data := match ri_data it with
                 | REnum vs => REnum (map (strip_variant name) vs)
                 | x => x
@@ -412,6 +413,57 @@ Proof.
     intros [[H|H]|[]]; [|exact H]. exfalso.
     destruct (fl (d_fields d)) as [|f l]; [destruct H|].
     destruct (contains_generics (d_params d) (fty f)); [destruct H as [H|[]]; discriminate|destruct H].
+Qed.
+
+(** ** the where clause of the impl: the type's own predicates are always kept, the bounds always added, in that order *)
+Theorem impl_where_keeps_own own bounds p : In p own -> In (BUser p) (impl_where own bounds).
+Proof. intros H. unfold impl_where. apply in_or_app. left. apply in_map. exact H. Qed.
+
+Theorem impl_where_adds_bounds own bounds b : In b bounds -> In b (impl_where own bounds).
+Proof. intros H. unfold impl_where. apply in_or_app. right. exact H. Qed.
+
+Theorem impl_where_order own bounds :
+  firstn (length own) (impl_where own bounds) = map BUser own /\
+  skipn (length own) (impl_where own bounds) = bounds.
+Proof.
+  unfold impl_where. assert (Hl : length own = length (map BUser own)) by (rewrite map_length; reflexivity).
+  rewrite Hl. split.
+  - rewrite firstn_app, PeanoNat.Nat.sub_diag, firstn_all. cbn. apply app_nil_r.
+  - rewrite skipn_app, PeanoNat.Nat.sub_diag, skipn_all. reflexivity.
+Qed.
+
+Theorem display_item_where_spec tr it w :
+  d_item_where cc to_case tr it = ROk w <->
+  exists arms bs, d_expand_item cc to_case tr it = ROk (arms, bs) /\ w = map BUser (ri_where it) ++ bs.
+Proof.
+  unfold d_item_where. destruct (d_expand_item cc to_case tr it) as [[arms bs]|e]; split.
+  - intros H. inversion H. exists arms, bs. split; reflexivity.
+  - intros (a & b & H & ->). inversion H. reflexivity.
+  - discriminate.
+  - intros (a & b & H & _). discriminate.
+Qed.
+
+Theorem debug_item_where_spec it w :
+  g_item_where cc it = ROk w <->
+  exists arms, g_expand_item cc it = ROk arms /\ w = map BUser (ri_where it) ++ flat_map snd arms.
+Proof.
+  unfold g_item_where. destruct (g_expand_item cc it) as [arms|e]; split.
+  - intros H. inversion H. exists arms. split; reflexivity.
+  - intros (a & H & ->). inversion H. reflexivity.
+  - discriminate.
+  - intros (a & H & _). discriminate.
+Qed.
+
+(** whatever the derive infers - also nothing at all - every predicate the user wrote on the type is in the impl's
+    where clause, and so is every bound of the expansion *)
+Corollary display_item_where_complete tr it w :
+  d_item_where cc to_case tr it = ROk w ->
+  (forall p, In p (ri_where it) -> In (BUser p) w) /\
+  (forall arms bs b, d_expand_item cc to_case tr it = ROk (arms, bs) -> In b bs -> In b w).
+Proof.
+  intros H. apply display_item_where_spec in H as (arms & bs & He & ->). split.
+  - intros p Hp. apply in_or_app. left. apply in_map. exact Hp.
+  - intros arms' bs' b He' Hb. rewrite He in He'. inversion He'; subst. apply in_or_app. right. exact Hb.
 Qed.
 
 (** ** Debug's refusals at item level *)
